@@ -9,7 +9,10 @@ import (
 	"encoding/json"
 	"fmt"
 	"hash/fnv"
+	"os"
 	"strings"
+	"syscall"
+	"time"
 
 	"verif/harness/vf"
 )
@@ -145,6 +148,8 @@ type caseRunner struct {
 	stats    map[string]*famStats
 	uncons   map[string]int64
 	sampled  map[string]bool
+
+	saidInexhaustive bool
 }
 
 func newCaseRunner(w *vf.Worker) *caseRunner {
@@ -185,15 +190,16 @@ func (cr *caseRunner) flush() {
 }
 
 type progCase struct {
-	family string
-	size   int
-	top    []stmt
-	opts   runOpts
-	noInput bool // mlr -n
+	family  string
+	size    int
+	top     []stmt
+	opts    runOpts
+	noInput bool    // mlr -n
 	input   []*omap // nil: the fixed three records
 	stdin   string
-	flat   bool // compare records after flattening (emitp)
-	always bool // run the real code even when the reference is unconstrained (crash / side-effect predicates only)
+	flat    bool   // compare records after flattening (emitp)
+	then    []stmt // a second put in the same then-chain
+	always  bool   // run the real code even when the reference is unconstrained (crash / side-effect predicates only)
 	preArgs []string
 }
 
@@ -214,7 +220,11 @@ func (pc *progCase) args(text string) []string {
 	if pc.opts.x {
 		a = append(a, "-x")
 	}
-	return append(a, text)
+	a = append(a, text)
+	if pc.then != nil {
+		a = append(a, "then", "put", unparse(pc.then, nil))
+	}
+	return a
 }
 
 func shellQuote(args []string) string {
@@ -250,6 +260,21 @@ func (cr *caseRunner) run(pc *progCase) bool {
 		}
 	}
 	ref := runReference(program{top: pc.top, opts: pc.opts}, input, sem)
+	if pc.then != nil && ref.uncon == "" && ref.fatal == "" && !ref.nonterm {
+		// the second put sees the first one's output records as its input, with its own @-space
+		var mid []*omap
+		for _, it := range ref.items {
+			if it.k != itJSON || it.v.k != kMap {
+				ref.uncon = "chain: the first put prints"
+				break
+			}
+			mid = append(mid, it.v.m)
+		}
+		if ref.uncon == "" {
+			ref = runReference(program{top: pc.then}, mid, sem)
+			sem["sem:chain-private-oosvars"]++
+		}
+	}
 	if ref.nonterm {
 		st.nonterm++
 		return false
@@ -269,7 +294,27 @@ func (cr *caseRunner) run(pc *progCase) bool {
 		s := stdinText
 		stdin = &s
 	}
-	r := vf.RunMlr(args, vf.MlrOpts{Stdin: stdin})
+	if hangBudgetSpent() {
+		// several programs already hung in this run: the tree is badly broken; do not spend
+		// hangCPUSeconds on each of the remaining ones
+		cr.w.Count("family:"+pc.family+":skipped-after-hang-budget", 1)
+		if !cr.saidInexhaustive {
+			cr.saidInexhaustive = true
+			cr.w.Inexhaustive(fmt.Sprintf("%d programs hung; the remaining programs of the run were not executed", maxHangs))
+		}
+		return false
+	}
+	r, hung := runWithCPUWatchdog(args, stdin)
+	if hung {
+		noteHang()
+		// the reference interpreter terminates on this program within its step budget; the real one
+		// has burnt hangCPUSeconds of CPU time on it (CPU time, not wall time: machine load cannot cause this)
+		cr.w.Violation(fmt.Sprintf("%s[hang]:%03d:%s", pc.family, pc.size, text),
+			fmt.Sprintf("`mlr %s` does not terminate (more than %d s of CPU time); the reference interpreter finishes it with output %q", shellQuote(args), hangCPUSeconds, trunc(renderItems(ref.items), 300)),
+			map[string]any{"command": "mlr " + shellQuote(args), "stdin": stdinText})
+		cr.flush()
+		cr.w.Abandon()
+	}
 	cr.w.Eval(1)
 	for k, v := range prod {
 		cr.prodHits[k] += v
@@ -309,7 +354,7 @@ func (cr *caseRunner) run(pc *progCase) bool {
 		st.compared++
 		cr.w.Nontrivial(1)
 		if r.Exit == 0 {
-			cr.w.Violation(key("no-error:"+fatalClass(ref.fatal)), fmt.Sprintf("`mlr %s` exits 0; the language reference makes this a fatal error (%s). stdout=%q", shellQuote(args), ref.fatal, trunc(r.Stdout, 300)), replay())
+			cr.w.Violation(key("no-error."+fatalClass(ref.fatal)), fmt.Sprintf("`mlr %s` exits 0; the language reference makes this a fatal error (%s). stdout=%q", shellQuote(args), ref.fatal, trunc(r.Stdout, 300)), replay())
 		}
 		return true
 	}
@@ -336,6 +381,52 @@ func (cr *caseRunner) run(pc *progCase) bool {
 		cr.w.Sample(map[string]any{"family": pc.family, "command": "mlr " + shellQuote(args), "output": trunc(r.Stdout, 300)})
 	}
 	return true
+}
+
+const hangCPUSeconds = 15
+const maxHangs = 6
+
+// hang budget shared by all workers of one check run (they have the same parent process)
+func hangFile() string { return fmt.Sprintf("/dev/shm/verif-c14-hangs-%d", os.Getppid()) }
+
+func hangBudgetSpent() bool {
+	b, err := os.ReadFile(hangFile())
+	return err == nil && len(b) >= maxHangs
+}
+
+func noteHang() {
+	if f, err := os.OpenFile(hangFile(), os.O_APPEND|os.O_CREATE|os.O_WRONLY, 0644); err == nil {
+		f.Write([]byte{'h'})
+		f.Close()
+	}
+}
+
+func cpuSeconds() float64 {
+	var ru syscall.Rusage
+	if err := syscall.Getrusage(syscall.RUSAGE_SELF, &ru); err != nil {
+		return 0
+	}
+	return float64(ru.Utime.Sec) + float64(ru.Utime.Usec)/1e6 + float64(ru.Stime.Sec) + float64(ru.Stime.Usec)/1e6
+}
+
+// runWithCPUWatchdog runs one in-process invocation; it gives up when this process has consumed
+// hangCPUSeconds of CPU time since the invocation started (normal cases take well under 10 ms).
+func runWithCPUWatchdog(args []string, stdin *string) (vf.MlrResult, bool) {
+	done := make(chan vf.MlrResult, 1)
+	start := cpuSeconds()
+	go func() { done <- vf.RunMlr(args, vf.MlrOpts{Stdin: stdin}) }()
+	tick := time.NewTicker(250 * time.Millisecond)
+	defer tick.Stop()
+	for {
+		select {
+		case r := <-done:
+			return r, false
+		case <-tick.C:
+			if cpuSeconds()-start > hangCPUSeconds {
+				return vf.MlrResult{}, true
+			}
+		}
+	}
 }
 
 func fatalClass(msg string) string {
